@@ -25,6 +25,8 @@ CONSTANT NQ         \* number of query segments per direction
 CONSTANT WithCells  \* emit the cell classes (levels G-1..G+1) and the cells met by every edge
 CONSTANT Prove      \* check the (expensive) local-rule theorems on every case
 CONSTANT Parts      \* the rectangles of a family are split into this many parts (work partition)
+CONSTANT OI, OJ     \* the level-G cell (of face 2) that contains S2's fixed reference point OriginPoint()
+                    \* (the "o..." families; computed by the harness from the real point)
 
 SetMin(A) == CHOOSE x \in A : \A y \in A : x <= y
 SetMax(A) == CHOOSE x \in A : \A y \in A : x >= y
@@ -43,6 +45,14 @@ RKey(r) == ((r.p[1] * 70 + r.p[2]) * 70 + r.p[3]) * 70 + r.p[4]
 PR(rs, part) == {r \in rs : RKey(r) % Parts = part}
 First(part, set) == IF part = 0 THEN set ELSE {}
 
+\* Regions placed relative to the reference point from which loop.go / polygon.go count crossings:
+\* rectangles that contain the origin cell, growing by p,q,r,s cells on the four sides
+OBox(p, q, r, s) == Rect(OI - p, OJ - q, OI + 1 + r, OJ + 1 + s)
+OGrow(b, m) == Rect(b.p[1] - m, b.p[2] - m, b.p[3] + m, b.p[4] + m)
+OBoxes(lo) == {OBox(p, q, r, s) : p \in lo..(lo + 1), q \in lo..(lo + 1), r \in lo..(lo + 1), s \in lo..(lo + 1)}
+\* keep the regions whose shell (first piece) lies on the face
+Fit(set) == {pcs \in set : PWellFormed(pcs[1])}
+
 RegionsOf(fam, part) ==
     CASE fam = "rect" -> {<<r>> : r \in PR(AllRects, part)}
       [] fam = "face" -> First(part, {<<WholeFace>>})
@@ -50,6 +60,19 @@ RegionsOf(fam, part) ==
       [] fam = "hole2" -> UNION {{<<Hull, h1, h2>> : h2 \in {h \in HolesIn : Separated(h1, h) /\ RKey(h1) < RKey(h)}} : h1 \in PR(HolesIn, part)}
       \* two separate shells (they may touch at a corner), the second possibly with a hole
       [] fam = "shells2" -> UNION {{<<r1, r2>> : r2 \in {r \in AllRects : Separated(r1, r) /\ RKey(r1) < RKey(r)}} : r1 \in PR(AllRects, part)}
+      \* a shell around the origin with a hole that surrounds the origin (origin outside the region)
+      [] fam = "ohole" -> Fit({<<OGrow(h, m), h>> : h \in PR(OBoxes(0), part), m \in {1, 2, 4}})
+      \* ... and an island in that hole that contains the origin again (depth 2), or lies beside it
+      [] fam = "oisland" -> Fit(UNION {{<<OGrow(h, 2), h, OBox(0, 0, 0, 0)>>, <<OGrow(h, 1), h, Rect(OI - 1, OJ - 1, OI, OJ)>>} :
+                                        h \in PR(OBoxes(2), part)})
+      \* shells that contain the origin (no hole / a hole beside it), shells beside the origin,
+      \* a shell whose hole is beside the origin cell
+      [] fam = "onear" -> First(part,
+                          Fit({<<b>> : b \in OBoxes(0) \cup OBoxes(3)}
+                              \cup {<<OBox(3, 3, 3, 3), Rect(OI + 1, OJ - 1, OI + 2, OJ + 2)>>,
+                                    <<OBox(4, 4, 4, 4), Rect(OI - 2, OJ + 1, OI + 2, OJ + 3)>>,
+                                    <<Rect(OI + 1, OJ - 2, OI + 6, OJ + 4)>>, <<Rect(OI - 5, OJ + 1, OI + 3, OJ + 6)>>,
+                                    <<Rect(OI + 1, OJ - 3, OI + 8, OJ + 5), Rect(OI + 2, OJ - 1, OI + 4, OJ + 2)>>}))
       [] fam = "island" -> {<<Hull, HoleHull, r>> : r \in {r \in PR(HoleRects, part) : StrictlyInside(r, HoleHull)}}
       [] fam = "facehole" -> {<<WholeFace, r>> : r \in {r \in PR(AllRects, part) : StrictlyInside(r, WholeFace)}}
       [] fam = "stair" -> First(part,
